@@ -192,6 +192,13 @@ def solver_case(emit, cid, solver, df, pen, rng, seed, rep):
               n_tasks=int(rng.integers(1, 4)), zero_weights=bool(rng.integers(0, 2)))
     if rng.random() < 0.4 and cs["p"] > 3:
         cs["mutate_X"] = str(rng.choice(["zero_col@first", "zero_col@middle", "zero_col@last"]))   # an empty CSC column
+    if "Group" in solver or "Group" in str(df) or "Group" in pen:
+        # group layouts in rotation, so that even the quick tier meets the "trap" layout (unsorted, non-adjacent
+        # groups whose end points span their length) with every group-structured family on CSC input
+        cs["group_style"] = ["trap", "perm", "contig"][rep % 3]
+        if cs["group_style"] == "trap":
+            cs["p"] = max(cs["p"], 6)
+            cs["xkind"] = "centered"      # columns on different scales: a column taken for another one changes the numbers
     case = K.Case(cs)
     warm = str(rng.choice(["cold", "dense"]))
     w_start, xw_start = case.start(warm)
